@@ -69,3 +69,10 @@ Example C16_src_examples :
   gen_Index_for_len_incl Index_Next 7 = Ret (Ok 7) /\
   gen_Index_for_len Index_Next 7 = Ret (Err (mk_OutOfBoundsError 7 7)).
 Proof. vm_compute. repeat split. Qed.
+
+(* Token::to_index (= try_into = TryFrom<&Token> for Index = Index::from_str on the ENCODED text), re-translated: it is the
+   primitive the regenerated tree walks use for `token.to_index()` *)
+Theorem C16_src_to_index_is_from_str_of_encoded : forall t : Token, utf8_valid (cow_text (Token_inner t)) = true ->
+  gen_Token_to_index t = Ret (prim_to_index t) /\ gen_Index_try_from_ref_Token t = Ret (prim_to_index t).
+Proof. exact gen_Token_to_index_is_prim. Qed.
+Print Assumptions C16_src_to_index_is_from_str_of_encoded.
